@@ -46,7 +46,7 @@ def NoPanic (PF : FnId → Bool) : Stmt → Bool
   | .removeFullThen _ _ b _ => NoPanic PF b
   | .forEntries _ _ _ b => NoPanic PF b
   | .callN _ f _ _ | .call f _ _ | .callV _ f _ | .callX _ f _ _ _ => PF f
-  | .while _ _ | .forRev _ _ _ | .optCallN _ _ _ _ _
+  | .while _ _ | .forRev _ _ _ | .optCallN _ _ _ _ _ | .whileSomeCall _ _ _
   | .firstMinBy _ _ _ _ | .lastMaxBy _ _ _ _ | .lastMaxByPos _ _ _ | .mapRemoved _ _ _
   | .mapChanged _ _ _ _ | .mapChangedBy _ _ _ _ => false
   | _ => true
@@ -380,7 +380,7 @@ theorem execStepF_noPanic (PF : FnId → Bool) (prog : Prog) (n : Nat) (fuse : N
     refine bind_congr fun vs => ?_
     rw [hcall _ _ _ _ _ h, fromCall_liftCall, liftF_bind]
     rfl
-  | «while» _ _ | forRev _ _ _ | optCallN _ _ _ _ _
+  | «while» _ _ | forRev _ _ _ | optCallN _ _ _ _ _ | whileSomeCall _ _ _
   | firstMinBy _ _ _ _ | lastMaxBy _ _ _ _ | lastMaxByPos _ _ _ | mapRemoved _ _ _
   | mapChanged _ _ _ _ | mapChangedBy _ _ _ _ => intro st h; simp [NoPanic] at h
   | _ => intro st _; rfl
@@ -691,8 +691,8 @@ macro_rules
         PQ.SrcEquivF.esF_match2, PQ.SrcEquivF.esF_ifHeapGet, PQ.SrcEquivF.esF_getFullMutThen,
         PQ.SrcEquivF.esF_removeFullThen, PQ.SrcEquivF.esF_mapRemoved, PQ.SrcEquivF.esF_mapChanged,
         PQ.SrcEquivF.esF_mapChangedBy, PQ.SrcEquivF.esF_forRev, PQ.SrcEquivF.execStepF_leaf, PQ.SrcEquivF.exec_step,
-        PQ.SrcEquiv.es1, PQ.SrcEquiv.es2, PQ.SrcEquiv.es3, PQ.SrcEquiv.es4, PQ.SrcEquiv.es5, PQ.SrcEquiv.es6, PQ.SrcEquiv.es7, PQ.SrcEquiv.es8, PQ.SrcEquiv.es10, PQ.SrcEquiv.es11, PQ.SrcEquiv.es12, PQ.SrcEquiv.es13, PQ.SrcEquiv.es14, PQ.SrcEquiv.es15, PQ.SrcEquiv.es16, PQ.SrcEquiv.es17, PQ.SrcEquiv.es18, PQ.SrcEquiv.es19, PQ.SrcEquiv.es20, PQ.SrcEquiv.es21, PQ.SrcEquiv.es22, PQ.SrcEquiv.es23, PQ.SrcEquiv.es24, PQ.SrcEquiv.es25, PQ.SrcEquiv.es26, PQ.SrcEquiv.es27, PQ.SrcEquiv.es28, PQ.SrcEquiv.es29, PQ.SrcEquiv.es30, PQ.SrcEquiv.es31, PQ.SrcEquiv.es32, PQ.SrcEquiv.es33, PQ.SrcEquiv.es34, PQ.SrcEquiv.es35, PQ.SrcEquiv.es36, PQ.SrcEquiv.es37, PQ.SrcEquiv.es38, PQ.SrcEquiv.es39, PQ.SrcEquiv.es40, PQ.SrcEquiv.es41, PQ.SrcEquiv.es42, PQ.SrcEquiv.es43, PQ.SrcEquiv.es44, PQ.SrcEquiv.es45, PQ.SrcEquiv.es46, PQ.SrcEquiv.es47, PQ.SrcEquiv.es48, PQ.SrcEquiv.es49, PQ.SrcEquiv.es50, PQ.SrcEquiv.es51, PQ.SrcEquiv.es52, PQ.SrcEquiv.es53, PQ.SrcEquiv.es54, PQ.SrcEquiv.es55, PQ.SrcEquiv.es56, PQ.SrcEquiv.es57, PQ.SrcEquiv.es58, PQ.SrcEquiv.es59, PQ.SrcEquiv.es60, PQ.SrcEquiv.es61, PQ.SrcEquiv.es62, PQ.SrcEquiv.es63, PQ.SrcEquiv.es64, PQ.SrcEquiv.es65, PQ.SrcEquiv.es66, PQ.SrcEquiv.es67, PQ.SrcEquiv.es68, PQ.SrcEquiv.es69, PQ.SrcEquiv.es70, PQ.SrcEquiv.es71, PQ.SrcEquiv.es72, PQ.SrcEquiv.es73, PQ.SrcEquiv.es74, PQ.SrcEquiv.es75, PQ.SrcEquiv.es76,
-        Src.evalN, Src.evalNs, Src.evalP, Src.evalPs, Src.evalVs, Src.evalB, SrcF.evalBF,
+        PQ.SrcEquiv.es1, PQ.SrcEquiv.es2, PQ.SrcEquiv.es3, PQ.SrcEquiv.es4, PQ.SrcEquiv.es5, PQ.SrcEquiv.es6, PQ.SrcEquiv.es7, PQ.SrcEquiv.es8, PQ.SrcEquiv.es10, PQ.SrcEquiv.es11, PQ.SrcEquiv.es12, PQ.SrcEquiv.es13, PQ.SrcEquiv.es14, PQ.SrcEquiv.es15, PQ.SrcEquiv.es16, PQ.SrcEquiv.es17, PQ.SrcEquiv.es18, PQ.SrcEquiv.es19, PQ.SrcEquiv.es20, PQ.SrcEquiv.es21, PQ.SrcEquiv.es22, PQ.SrcEquiv.es23, PQ.SrcEquiv.es24, PQ.SrcEquiv.es25, PQ.SrcEquiv.es26, PQ.SrcEquiv.es27, PQ.SrcEquiv.es28, PQ.SrcEquiv.es29, PQ.SrcEquiv.es30, PQ.SrcEquiv.es31, PQ.SrcEquiv.es32, PQ.SrcEquiv.es33, PQ.SrcEquiv.es34, PQ.SrcEquiv.es35, PQ.SrcEquiv.es36, PQ.SrcEquiv.es37, PQ.SrcEquiv.es38, PQ.SrcEquiv.es39, PQ.SrcEquiv.es40, PQ.SrcEquiv.es41, PQ.SrcEquiv.es42, PQ.SrcEquiv.es43, PQ.SrcEquiv.es44, PQ.SrcEquiv.es45, PQ.SrcEquiv.es46, PQ.SrcEquiv.es47, PQ.SrcEquiv.es48, PQ.SrcEquiv.es49, PQ.SrcEquiv.es50, PQ.SrcEquiv.es51, PQ.SrcEquiv.es52, PQ.SrcEquiv.es53, PQ.SrcEquiv.es54, PQ.SrcEquiv.es55, PQ.SrcEquiv.es56, PQ.SrcEquiv.es57, PQ.SrcEquiv.es58, PQ.SrcEquiv.es59, PQ.SrcEquiv.es60, PQ.SrcEquiv.es61, PQ.SrcEquiv.es62, PQ.SrcEquiv.es63, PQ.SrcEquiv.es64, PQ.SrcEquiv.es65, PQ.SrcEquiv.es66, PQ.SrcEquiv.es67, PQ.SrcEquiv.es68, PQ.SrcEquiv.es69, PQ.SrcEquiv.es70, PQ.SrcEquiv.es71, PQ.SrcEquiv.es72, PQ.SrcEquiv.es73, PQ.SrcEquiv.es74, PQ.SrcEquiv.es75, PQ.SrcEquiv.es76, PQ.SrcEquiv.es77, PQ.SrcEquiv.es78, PQ.SrcEquiv.es79, PQ.SrcEquiv.es80, PQ.SrcEquiv.es81, PQ.SrcEquiv.es82, PQ.SrcEquiv.es84, PQ.SrcEquiv.es85, PQ.SrcEquiv.es86, PQ.SrcEquiv.es87,
+        Src.evalO, Src.evalN, Src.evalNs, Src.evalP, Src.evalPs, Src.evalVs, Src.evalB, SrcF.evalBF,
         Src.bindN, Src.bindP, Src.bindV, Src.upd, Src.St.setS, Src.St.setN, Src.St.setP, Src.St.setV,
         bind_assoc, pure_bind, map_eq_pure_bind, Function.comp,
         PQ.SrcEquivF.liftF_bind, PQ.SrcEquivF.liftF_pure, PQ.SrcEquivF.liftF_ok, PQ.SrcEquivF.liftF_error,
